@@ -14,10 +14,15 @@ def run_k(ctx: Ctx, prop: str, modules: List[Any], explanation: str, functions: 
     outcome = Outcome()
     allres: List[Any] = []
     counts: Dict[str, int] = {}
-    for gen in modules:
-        text = gen.generate(VERIF, ctx.tier)
+    for entry in modules:
+        gen, only, kwargs = (entry if isinstance(entry, tuple) else (entry, None, {}))
+        text = gen.generate(VERIF, ctx.tier, **kwargs)
         modname = f"k_{prop.lower()}_{gen.__name__.split('.')[-1]}_{ctx.tier}"
-        res = chrunner.run_module(text, modname, timeout=timeout_quick if ctx.quick else timeout_thorough)
+        names = None
+        if only is not None:
+            import re as _re
+            names = [n for n in _re.findall(r"^def (k_\w+)\(", text, _re.M) if _re.search(only, n)]
+        res = chrunner.run_module(text, modname, timeout=timeout_quick if ctx.quick else timeout_thorough, only=names)
         c = common.k_results_to_outcome(ctx, res, outcome, modname)
         common.merge_counts(counts, c)
         allres += list(res)
